@@ -34,6 +34,8 @@ def cases_(draw):
     opts['tfp'] = None
     alpha = opts['format'] == 'json'
     pkg = draw(gen_dump.dump_package(sort_fields=alpha, max_rows=6))
+    if gen.rare(draw, 120):
+        gen_dump.per_resource_formats(draw, pkg, opts)  # force_format=False: the format each path names
     # 're-dump': the incoming descriptor already carries counters of an earlier dump (load -> process -> dump)
     stale = gen.rare(draw, 200)
     # the dumper's validator may be told to drop invalid rows: counters describe what was written
@@ -94,7 +96,7 @@ def invalid_tables(pkg):
 
 def check(case, ctx):
     pkg, opts = case['pkg'], case['opts']
-    classes = ['fmt:' + opts['format'], 'dumper:' + opts['dumper']] + (['re-dump'] if case.get('stale_counters') else []) + [
+    classes = ['fmt:' + (opts['format'] if opts.get('force_format', True) else 'per-resource'), 'dumper:' + opts['dumper']] + (['re-dump'] if case.get('stale_counters') else []) + [
         'counters:' + ('default' if not opts.get('counters') else 'custom')]
     try:
         loc1, stats1 = dump_once(case, ctx)
